@@ -236,7 +236,7 @@ func (o *SpecOut) schedulePosts(n *Node, dst reflect.Value, absentOptional bool)
 			} else {
 				o.postGated = true
 			}
-		case "error", "issue":
+		case "error", "issue", "wrapped":
 			o.unknown("failing PostTransform is outside the generic specification")
 		}
 	}
